@@ -5,6 +5,7 @@ import (
 	"go/ast"
 	"go/token"
 	"go/types"
+	"sort"
 	"strings"
 )
 
@@ -247,7 +248,17 @@ func (fx *Fx) runLoop(st *State, lp *loopParts) {
 	fx.dryLoopBody(st, lp)
 	ms := fx.w.modsOfNode(fx, lp.node)
 	head := st
+	var modVars []types.Object
 	for obj := range ms.vars {
+		modVars = append(modVars, obj)
+	}
+	sort.Slice(modVars, func(i, j int) bool {
+		if modVars[i].Pos() != modVars[j].Pos() {
+			return modVars[i].Pos() < modVars[j].Pos()
+		}
+		return modVars[i].Name() < modVars[j].Name()
+	})
+	for _, obj := range modVars {
 		if _, ok := head.vars[obj]; !ok {
 			continue
 		}
@@ -267,13 +278,13 @@ func (fx *Fx) runLoop(st *State, lp *loopParts) {
 	if ms.all {
 		head.havocAllHeaps()
 	} else {
-		for k := range ms.heaps {
+		for _, k := range sortedBoolKeys(ms.heaps) {
 			if k == "ONCE" {
 				continue
 			}
 			head.havocHeap(k)
 		}
-		for k := range ms.fresh {
+		for _, k := range sortedBoolKeys(ms.fresh) {
 			if ms.heaps[k] {
 				continue
 			}
